@@ -21,3 +21,8 @@ add("C11", "exploration", "protocol automaton + two-state reference model over e
     "forwarded events are fed to the ASGI application-side automaton, each call is compared with the reference model (must raise / forwards m / consumes one event), frames are "
     "accounted exactly-once in order and the reported states are checked for monotonicity. WebsocketDenialResponse is checked with and without the extension.",
     "Typed receive on the other frame type is unspecified; a call that would wait forever ends the scenario.")
+add("C19", "exploration", "independent WHATWG event-stream parser fed with the bytes observed at the server boundary (ASGI on a virtual-time loop with interleaved pings, WSGI thread relay) and from build_bytes_from_sse",
+    "Generated event dictionaries (all key subsets/orders, data over every Unicode line/paragraph separator, empty data, leading space/colon, several ASCII-compatible charsets) are "
+    "written by the real code, decoded with the declared charset and parsed by an independent implementation of the WHATWG algorithm; dispatched events (type, data, lastEventId), final "
+    "id/retry state and event order must equal what was yielded; pings must dispatch nothing.",
+    "Trusts the 80-line parser model; data compared modulo one trailing line terminator; ASCII-compatible charsets only.")
